@@ -38,11 +38,13 @@ def classify(r, st, bits):
         return "D_AbsTrunc16"
     if k == "ins" and mn in ("DIV", "MUL", "IDIV") :
         return "D_Group3"
-    if k == "br" and st["tgt"].get("nm") == "nowhere":
+    if k == "br" and (st["tgt"].get("nm") == "nowhere" or str(st["tgt"].get("nm", "")).startswith("FWD")):
         return "D_UndefinedIsZero"
     if k == "ins" and mn == "MOV" and sh == ["s", "s"]:
         return "D_SregAsGpr"
-    if k in ("br",) or (k == "ins" and mn in ("JMP", "CALL")):
+    if k == "ins" and (mn in ("JMP", "CALL") or (mn.startswith("J") and len(mn) <= 5)):
+        return "D_UndefinedIsZero"      # a register / control register / memory operand of a branch is taken for an unknown label
+    if k in ("br",):
         if "C17" in tags:
             return "D_BitsGlobal"
         return "D_JmpSize"
